@@ -141,3 +141,23 @@ Print Assumptions C15_relu_lipschitz.
 Print Assumptions C15_id_lipschitz.
 Print Assumptions C15_hardtanh_lipschitz.
 Print Assumptions C15_hardtanh_range.
+
+(* ================================================================================================================ *)
+(* Tie (T): the contraction, stated directly about forward_internal as GENERATED on this run from the current source of
+   nodes/reservoirs/base.py (coq/gen/Gen_reservoir.v; equality with the model: proofs/Gen_reservoir_eq.v).             *)
+From RV Require Import base.GenPrelude gen.Gen_reservoir proofs.Gen_reservoir_eq.
+
+Theorem C15_generated_step_contraction (n : nat) (c : rcfg R) (f : R -> R) (a sigma : R) (r1 r2 : list R) (x : rin R) :
+  shaped n c -> quiet c -> (forall v, ract c v = map f v) -> rlr c = LrS a ->
+  lipschitz1 f -> 0 <= a <= 1 -> 0 <= sigma -> opnorm_le (rW c) n sigma ->
+  length r1 = n -> length r2 = n ->
+  let fwd r := GenReservoir_LrS.forward_internal (rW c) (rWin c) (rbias c) (c_has_fb c) (c_Wfb c) a (ract c) (rfbact c)
+                                    (g_in c) (g_fb c) (g_rc c) r (i_fb x) (xi_in x) (xi_fb x) (xi_rc x) (i_u x) in
+  vnorm (vsub (fwd r1) (fwd r2)) <= ((1 - a) + a * sigma) * vnorm (vsub r1 r2).
+Proof.
+  intros Hs Hq Hf Hl Hlip Ha Hsg HW H1 H2 fwd. unfold fwd.
+  destruct (gen_forward_internal_eq c a (repeat 0 n) r1 x Hl) as [E1 _].
+  destruct (gen_forward_internal_eq c a (repeat 0 n) r2 x Hl) as [E2 _]. rewrite E1, E2.
+  apply (C15_step_contraction n c f a sigma (repeat 0 n) (repeat 0 n) r1 r2 x); auto using repeat_length.
+Qed.
+Print Assumptions C15_generated_step_contraction.
